@@ -6,7 +6,7 @@ import vlib
 
 ASSUME = [
     "real decay0_generator.cc and bb_utils.cc (catalogues read from /repo/resources through host-backed stream hooks); genbbsub and the gA process are recording stubs whose success/failure is nondeterministic",
-    "6 configuration profiles (fresh, legacy 0nubb, gA, 2nubb with symbolic energy window, background, category only) followed by NCALLS arbitrary public API calls with symbolic arguments (NCALLS = 3 quick, 4 thorough)",
+    "6 configuration profiles (fresh, legacy 0nubb, gA, 2nubb with symbolic energy window, background, category only) followed by NCALLS arbitrary public API calls with symbolic arguments (quick: every sequence of 3 calls; thorough: additionally the sequences of 4 calls whose first call is initialize, reset or add_operation)",
     "reference automaton in harness/e3/c09_protocol.cpp written from the documented protocol (README 'Porcelain', decay0_generator.h)",
     "irx: pointers concrete per path, ministl replaces libstdc++",
 ]
@@ -19,7 +19,15 @@ def run(tier, seed):
     ncalls = 3 if tier == "quick" else 4
     lls = vlib.ir_units(wd, ["decay0_generator", "bb_utils", "event", "particle", "particle_utils", "utils", "bb"], {"bb": ["decay0_bb=decay0_bb_real"]})
     hs = vlib.E3H + "/c09_protocol.cpp"
-    jobs = [("profile%d" % k, ["NCALLS=%d" % ncalls, "PROFILE=%d" % k]) for k in range(6)] + [("witness", ["NCALLS=1", "PROFILE=1", "WITNESS"])]
+    if tier == "quick":
+        jobs = [("profile%d" % k, ["NCALLS=3", "PROFILE=%d" % k]) for k in range(6)]
+    else:
+        # all 4-call sequences exceed 200000 paths per profile (measured: 26 min, not exhausted); thorough = every 3-call sequence plus the
+        # 4-call sequences that start with initialize (operation 6), with reset (8) or with add_operation (5)
+        jobs = [("profile%d" % k, ["NCALLS=3", "PROFILE=%d" % k]) for k in range(6)]
+        for first in (6, 8, 5):
+            jobs += [("profile%d_first%d" % (k, first), ["NCALLS=4", "PROFILE=%d" % k, "FIRST_OP=%d" % first]) for k in range(6)]
+    jobs = jobs + [("witness", ["NCALLS=1", "PROFILE=1", "WITNESS"])]
     mods = vlib.parallel(jobs, lambda j: vlib.irx_link(wd, j[0], lls, hs, j[1]))
     res = vlib.irx_run(mods, K=64, timeout=3000)
     wit = res[-1]
@@ -29,7 +37,7 @@ def run(tier, seed):
     witness_ok = any(x.get("type") == "assert_fail" and "WITNESS" in x.get("what", "") for x in wit["records"])
     samples, n = irx_common.collect("C09", wd, rep, keys, res)
     return irx_common.finish("C09", tier, seed, t0, rep, agg, samples, witness_ok,
-                             {"functions": ["decay0_generator::* (all public methods)", "bb_utils: dbd_modes, dbd_supports_esum_range, dbd_legacy_mode"], "api_calls_per_history": ncalls, "profiles": 6}, ASSUME)
+                             {"functions": ["decay0_generator::* (all public methods)", "bb_utils: dbd_modes, dbd_supports_esum_range, dbd_legacy_mode"], "api_calls_per_history": 3 if tier == "quick" else 4, "profiles": 6}, ASSUME)
 
 
 def replay(path):
